@@ -143,6 +143,12 @@ func runC18Case(c *c18Case, st *stats, idx int) {
 				if d, ok := pool[op.Ds]; ok {
 					g.process(entry(pb.DatasetManagerChangeType_DatasetManagerDeleteDataset, d.Id))
 				}
+			case "restore":
+				// a catalogue snapshot arrives (a lagging member is brought up to date by the leader): the catalogue as it
+				// is now, installed over the datasets the node already holds
+				if bs, err := g.snapshot(); err == nil {
+					g.processSnapshot(bs)
+				}
 			}
 			select {
 			case progress <- i + 1:
@@ -286,6 +292,9 @@ func c18Scripts(r *rng, n int) []c18Case {
 	add("two datasets, one deleted between the proposals of a join",
 		c18Op{Kind: "create", Ds: 0, Self: true, Repl: 2, Parts: 2}, c18Op{Kind: "create", Ds: 1, Self: true, Repl: 2, Parts: 1},
 		c18Op{Kind: "node-add", Node: 2}, c18Op{Kind: "delete", Ds: 0}, c18Op{Kind: "delete", Ds: 1})
+	add("a catalogue snapshot is installed over datasets the node already holds, between membership changes and further entries",
+		c18Op{Kind: "create", Ds: 0, Self: true, Repl: 2, Parts: 2}, c18Op{Kind: "node-add", Node: 2}, c18Op{Kind: "restore"},
+		c18Op{Kind: "create", Ds: 1, Self: true, Repl: 2, Parts: 1}, c18Op{Kind: "restore"}, c18Op{Kind: "delete", Ds: 0})
 	var burst []c18Op
 	burst = append(burst, c18Op{Kind: "create", Ds: 0, Self: true, Repl: 2, Parts: 1})
 	for i := uint64(2); i <= 41; i++ {
@@ -313,6 +322,8 @@ func c18Scripts(r *rng, n int) []c18Case {
 				ops = append(ops, c18Op{Kind: "create", Ds: nextDs, Self: r.intn(4) != 0, Repl: uint32(1 + r.intn(3)), Parts: 1 + r.intn(3)})
 				dss = append(dss, nextDs)
 				nextDs++
+			case len(dss) > 0 && r.intn(3) == 0:
+				ops = append(ops, c18Op{Kind: "restore"})
 			case len(dss) > 0:
 				j := r.intn(len(dss))
 				ops = append(ops, c18Op{Kind: "delete", Ds: dss[j]})
@@ -344,6 +355,9 @@ func coqC18Case(c c18Case) string {
 			delete(parts, op.Ds)
 			watched -= n
 			ops = append(ops, fmt.Sprintf("ZUpd %d", n))
+		case "restore":
+			// a catalogue snapshot over the datasets already held: an entry that queues nothing for the allocator
+			ops = append(ops, "ZUpd 0")
 		}
 	}
 	return fmt.Sprintf("{| wc_backlog := [%s]; wc_finished := %s |}", strings.Join(ops, "; "), b(!c.Wedged))
